@@ -5,6 +5,7 @@ go 1.23.4
 toolchain go1.23.5
 
 require (
+	connectrpc.com/connect v1.18.1
 	github.com/anishathalye/porcupine v1.3.0
 	github.com/bufbuild/buf v0.0.0
 	github.com/bufbuild/protocompile v0.14.1
@@ -24,7 +25,6 @@ require (
 	buf.build/go/protoyaml v0.3.2 // indirect
 	buf.build/go/spdx v0.2.0 // indirect
 	cel.dev/expr v0.23.1 // indirect
-	connectrpc.com/connect v1.18.1 // indirect
 	connectrpc.com/otelconnect v0.7.2 // indirect
 	github.com/antlr4-go/antlr/v4 v4.13.1 // indirect
 	github.com/bufbuild/protoplugin v0.0.0-20250218205857-750e09ce93e1 // indirect
